@@ -129,6 +129,32 @@ def r_fresh_predicates(ck: Checker) -> None:
     ck.need(n >= 12, f"Rule(...) constructor calls found ({n})")
 
 
+def r_fresh_arity(ck: Checker) -> None:
+    """freshness is per (name, arity): the arity asked for must be the arity the predicate is used with"""
+    n = 0
+    for func in ck.prg.funcs.values():
+        if isinstance(func.node, ast.Lambda):
+            continue
+        reqs = [a for a in find_nodes(func.node, lambda x: isinstance(x, ast.Assign)) if isinstance(a.value, ast.Call) and isinstance(a.value.func, ast.Attribute)  # type: ignore[attr-defined]
+                and a.value.func.attr == "new_auxpredicate" and isinstance(a.targets[0], ast.Name)]  # type: ignore[attr-defined]
+        if not reqs:
+            continue
+        it = ck.interp(func)
+        for req in reqs:
+            pred = req.targets[0].id  # type: ignore[attr-defined]
+            ar = req.value.args[0] if req.value.args else None  # type: ignore[attr-defined]
+            uses = [c for c in calls_in(func, lambda c: isinstance(c.func, ast.Name) and c.func.id == "Function" and len(c.args) >= 3 and unparse(c.args[1]) == f"{pred}.name")]
+            ck.need(bool(uses), f"the predicate requested in {func.name} is used in a Function(...) term")
+            for use in uses:
+                n += 1
+                want = {f"len({t})" for t in it.texts(use, use.args[2])}
+                got = it.texts(req.value, ar) if ar is not None else set()
+                ck.add(f"{func.name}: the arity asked of new_auxpredicate is the length of the argument list the predicate is used with", bool(got) and got == want, func, req,
+                       f"asked for arity {sorted(got)}; used with `{short(unparse(use.args[2]), 60)}` (arity {sorted(want)})",
+                       "a name is only checked against predicates of the requested arity: with another arity an `__aux_N` the source already owns gets a second defining rule")
+    ck.need(n >= 3, f"uses of freshly requested auxiliary predicates found ({n})")
+
+
 def _param_fresh(ck: Checker, func: Func, param: str) -> bool:
     """every caller passes a predicate obtained from a fresh source for this parameter"""
     from .c03 import _bind, _call_sites
@@ -442,6 +468,7 @@ def r_global_vars(ck: Checker) -> None:
 RULES = [
     Rule("C07.unique-names", P7 + P4, r_unique_names),
     Rule("C07.FRESH.predicate", P7 + ("C12",), r_fresh_predicates),
+    Rule("C07.FRESH.arity", P7 + ("C11", "C16", "C10"), r_fresh_arity),
     Rule("C07.FRESH.domain-names", P7 + ("C12", "C13", "C20"), r_domain_names),
     Rule("C07.FRESH.variable", P7 + ("C12",), r_fresh_variables),
     Rule("C07.unique-variables", P7 + P4 + ("C15",), r_unique_variables),
